@@ -16,6 +16,7 @@
 (* FOCUS (environment) selects whose property clauses are judged: "C02" or "C11".     *)
 (* Solves harvested from the repository's test suite (harness/pytest_harvest.py) come *)
 (* as the same events with sweeps = -1 (unobserved) and traced = FALSE.               *)
+(* A Step for the period that has just raised is the caller's Retry of that period.   *)
 (* Every Step says whether the tolerance of the run is >= 1 (tol_ge1) and how many    *)
 (* sweeps were started (0 = the period was appended without any sweep).               *)
 EXTENDS Solver, Json, IOUtils
@@ -41,13 +42,13 @@ StatusOfExit(x) == CASE x = "converged" -> Completed
 Stuck(s) == [s EXCEPT !.status = "idle", !.step = -1]
 
 (* what the code does after the last sweep of a period *)
-Settle(s3, cap, d) ==
+Settle(s3, cp, d) ==
     IF s3.status \in Raised THEN s3
-    ELSE IF RaiseConvergenceEnabled(s3, cap) THEN RaiseOp(s3, "raised_convergence")
-    ELSE IF RaiseValueEnabled(s3, cap) THEN RaiseOp(s3, "raised_value")
-    ELSE IF ExitLoopEnabled(s3, cap)
+    ELSE IF RaiseConvergenceEnabled(s3, cp) THEN RaiseOp(s3, "raised_convergence")
+    ELSE IF RaiseValueEnabled(s3, cp) THEN RaiseOp(s3, "raised_value")
+    ELSE IF ExitLoopEnabled(s3, cp)
          THEN LET s4 == ExitLoopOp(s3)
-              IN IF RaiseValueEnabled(s4, cap) THEN RaiseOp(s4, "raised_value")
+              IN IF RaiseValueEnabled(s4, cp) THEN RaiseOp(s4, "raised_value")
                  ELSE IF AsFound_DecorativeAfterAppend
                       THEN DecorateOp(AppendOp(s4), d)
                       ELSE LET s5 == DecorateOp(s4, d)
@@ -55,13 +56,15 @@ Settle(s3, cap, d) ==
     ELSE Stuck(s3)            \* the loop would go on: not a complete period
 
 PathEnd(s0, e, o, d) ==
-    LET s1 == BeginStepOp([s0 EXCEPT !.big = e.tol_ge1])
+    LET retry == RetryEnabled(s0, MaxRetries) /\ e.k = s0.step      \* SolveStep for the same period again
+        s1 == IF retry THEN RetryOp(s0, e.cap, e.tol_ge1)
+              ELSE BeginStepOp([s0 EXCEPT !.big = e.tol_ge1, !.cap = e.cap])
         \* logged sweeps = sweeps started (an uncaught exception ends the last one);
         \* sweeps = -1: not observed (solves harvested from the test suite) - the witness n = 1 is used,
         \* the end state of a path depends only on the last sweep's outcome;
         \* sweeps = 0: the period ended without any sweep
         pre == IF e.sweeps < 0 THEN 0 ELSE e.sweeps - 1
-    IN IF ~BeginStepEnabled(s0, e.horizon) THEN Stuck(s0)
+    IN IF ~retry /\ ~BeginStepEnabled(s0, e.horizon) THEN Stuck(s0)
        ELSE IF e.sweeps = 0 THEN (IF o = "converge" THEN Settle(s1, e.cap, d) ELSE Stuck(s0))
        ELSE IF ~JumpEnabled(s1, e.cap, pre) THEN Stuck(s0)
        ELSE LET s2 == JumpOp(s1, pre)
@@ -132,8 +135,8 @@ JudgeFinish(s0, e) ==
     IN Worse(p, c)
 
 Reset(s0) == /\ step = s0.step /\ sweep = s0.sweep /\ errc = s0.errc /\ evalErr = s0.evalErr
-             /\ iter = s0.iter /\ status = s0.status /\ len = s0.len /\ big = s0.big /\ hist = << >>
-TraceInit == l = 1 /\ verdict = Ok /\ Reset(InitState(0, FALSE))
+             /\ iter = s0.iter /\ status = s0.status /\ len = s0.len /\ big = s0.big /\ cap = s0.cap /\ retries = s0.retries /\ hist = << >>
+TraceInit == l = 1 /\ verdict = Ok /\ Reset(InitState(0, FALSE, 0))
 
 TraceNext ==
     /\ l <= Len(Log)
@@ -148,7 +151,7 @@ TraceNext ==
        \/ /\ e.ev = "End"
           /\ PrintT(<< "VERDICT", e.tid, verdict.kind \o ":" \o verdict.clause >>)
           /\ verdict' = Ok
-          /\ Set(InitState(0, FALSE)) /\ UNCHANGED hist
+          /\ Set(InitState(0, FALSE, 0)) /\ UNCHANGED hist
 
 TraceSpec == TraceInit /\ [][TraceNext]_tvars
 
